@@ -167,6 +167,18 @@ type Termer struct {
 	stack map[ssa.Value]bool
 	// Summaries, when non-nil, lets the caller substitute calls.
 	MaxDepth int
+	// At, when set, is the block at which the terms are used: phis are narrowed to the alternatives that are
+	// feasible under the branch outcomes dominating At (correlated-phi narrowing, narrow.go).
+	At *ssa.BasicBlock
+	gs []Guard
+}
+
+// NewTermerAt returns a Termer whose terms describe values as seen from block `at`.
+func NewTermerAt(fn *ssa.Function, at *ssa.BasicBlock) *Termer {
+	tm := NewTermer(fn)
+	tm.At = at
+	tm.gs = Guards(at)
+	return tm
 }
 
 func NewTermer(fn *ssa.Function) *Termer {
@@ -310,7 +322,27 @@ func (tm *Termer) compute(v ssa.Value, d int) *Term {
 		return &Term{Op: "assert", Name: typeShort(x.AssertedType), Args: []*Term{tm.of(x.X, d+1)}}
 	case *ssa.Phi:
 		t := &Term{Op: "phi"}
+		var feas []bool
+		if tm.At != nil {
+			feas = FeasibleEdges(x, tm.gs)
+			n, last := 0, -1
+			for i, f := range feas {
+				if f {
+					n++
+					last = i
+				}
+			}
+			if n == 1 {
+				return tm.of(x.Edges[last], d+1)
+			}
+			if n == 0 {
+				feas = nil
+			}
+		}
 		for i, e := range x.Edges {
+			if feas != nil && !feas[i] {
+				continue
+			}
 			// nil-refinement: on an edge that is only taken when e == nil the edge carries nil
 			if i < len(x.Block().Preds) && edgeImpliesNil(x.Block().Preds[i], x.Block(), e) {
 				t.Args = append(t.Args, &Term{Op: "nil", V: e})
